@@ -63,6 +63,62 @@ def twin_pairs(ctx, modules=None):
     return out
 
 
+def _check_twin_model(ctx, rep, pure, inplace):
+    """the pure twin, evaluated with the analyser's finite-model evaluator on an opaque operand: copy.deepcopy and the
+    in-place sibling are replaced by recorders.  Required: the sibling is applied exactly once, to a deep copy of the
+    operand (never to the operand itself), with every shared parameter passed through, and the copy is what is returned.
+    Used when the twin does not call its sibling directly (the pattern was moved into a helper).  True when decided."""
+    from ..miniexec import Interp, Obj, Raised
+    from ..abseval import Unsupported
+    f = pure
+    G = Obj('operand')
+    copies, calls = [], []
+
+    def copier(interp, args, kwargs):
+        c = Obj('copy', of=args[0] if args else None)
+        copies.append(c)
+        return c
+
+    def recorder(interp, args, kwargs):
+        calls.append((list(args), dict(kwargs)))
+        return None
+    params = [p.arg for p in f.pos_params]
+    actual = [G] + ['<{}>'.format(p) for p in params[1:]]
+    try:
+        r = Interp(ctx, stubs={inplace.name: recorder, 'copy.deepcopy': copier, 'deepcopy': copier}).call(f, actual)
+    except Raised as ex:
+        rep.violates(RULE + '.call', f, 'def ' + f.name, 'the pure twin raises {} on every call'.format(ex.name))
+        return True
+    except Unsupported:
+        return False
+    if len(calls) != 1:
+        rep.violates(RULE + '.call', f, 'def ' + f.name, 'the in-place sibling {} is applied {} times on the straight path through {} (exactly once is required)'.format(inplace.name, len(calls), f.name))
+        return True
+    args, kwargs = calls[0]
+    tgt = args[0] if args else None
+    if tgt is G:
+        rep.violates(RULE + '.copy', f, 'def ' + f.name, 'in-place sibling {} is applied to the operand itself, not to a deep copy'.format(inplace.name))
+        return True
+    if not (isinstance(tgt, Obj) and tgt._cls == 'copy' and tgt._f.get('of') is G):
+        rep.violates(RULE + '.copy', f, 'def ' + f.name, 'in-place sibling {} is not applied to a deep copy of the operand'.format(inplace.name))
+        return True
+    rep.holds(RULE + '.copy', f, 'def ' + f.name, 'the in-place sibling {} is applied once, to a deep copy of the operand (evaluated on an opaque operand)'.format(inplace.name))
+    in_params = [p.arg for p in inplace.pos_params]
+    passed = dict(zip(in_params, args))
+    passed.update(kwargs)
+    for p in params[1:]:
+        if p in in_params:
+            if passed.get(p) == '<{}>'.format(p):
+                rep.holds(RULE + '.args', f, 'parameter ' + p, 'parameter {} passed through'.format(p), nontrivial=False)
+            else:
+                rep.violates(RULE + '.args', f, 'parameter ' + p, 'parameter {} of {} is not passed through to {}'.format(p, f.name, inplace.name))
+    if r is tgt:
+        rep.holds(RULE + '.return', f, 'def ' + f.name, 'returns the copy after the in-place call')
+    else:
+        rep.violates(RULE + '.return', f, 'def ' + f.name, 'the pure twin does not return the modified copy')
+    return True
+
+
 def check_twin(ctx, rep, pure, inplace):
     f = pure
     fx = ctx.facts(f)
@@ -104,6 +160,8 @@ def check_twin(ctx, rep, pure, inplace):
                 rep.violates(RULE + '.call', f, rets[0],
                              'pure twin {} returns an untouched deep copy: the in-place operation {} is never applied'.format(f.name, inplace.name))
                 return
+        if _check_twin_model(ctx, rep, pure, inplace):
+            return
         rep.undecided(RULE + '.call', f, 'def ' + f.name, 'no call of the in-place sibling found; different style')
         return
     ok = True
